@@ -72,9 +72,31 @@ theorem accepts_iff (sig : Sig) (fn : Fn) :
 example : accepts ⟨[⟨.int, .val⟩, ⟨.clsA, .lref⟩], some ⟨.long, .val⟩⟩ .none
     ⟨.memFun true .const, [⟨.long, .cref⟩, ⟨.clsA, .lref⟩], some ⟨.int, .val⟩⟩ = true := by decide
 
-/-- the two routes `slot<Sig> s = f;` and `signal<Sig>::connect(f)` decide alike -/
+/-- the three routes `slot<Sig> s = f;`, `signal<Sig>::connect(f)` and `signal<Sig>::accumulated<Acc>::connect(f)`
+    decide alike (they all construct the same `slot<Sig>`) -/
 theorem routes_agree (sig : Sig) (ad : Adaptor) (fn : Fn) :
-    acceptsRoute .slotInit sig ad fn = acceptsRoute .connect sig ad fn := rfl
+    acceptsRoute .slotInit sig ad fn = acceptsRoute .connect sig ad fn ∧
+      acceptsRoute .connectAccum sig ad fn = acceptsRoute .connect sig ad fn := ⟨rfl, rfl⟩
+
+/-- every route goes through the typed call of `call_it`: whatever is accepted on any route, under any adaptor hop,
+    has a result that can be returned as the signature's result -/
+theorem acceptsRoute_retOk (r : Route) (sig : Sig) (ad : Adaptor) (fn : Fn)
+    (h : acceptsRoute r sig ad fn = true) : retOk fn.ret sig.ret = true := by
+  have key : ∀ ad', accepts sig ad' fn = true → retOk fn.ret sig.ret = true := by
+    intro ad' h'
+    simp only [accepts] at h'
+    cases hargs : adaptArgs ad' fn sig.params with
+    | none => simp [hargs] at h'
+    | some args =>
+      simp only [hargs, Bool.and_eq_true] at h'
+      exact h'.2
+  cases r with
+  | slotInit => exact key ad h
+  | connect => exact key ad h
+  | connectAccum => exact key ad h
+  | signalConnect =>
+    simp only [acceptsRoute, Bool.and_eq_true] at h
+    exact key .none h.2
 
 /-- **wrong arity ⇒ rejected** (any kind, any parameter types) -/
 theorem wrong_arity_rejected (sig : Sig) (fn : Fn) (h : fn.params.length ≠ sig.params.length) :
@@ -99,6 +121,13 @@ theorem nonconvertible_param_rejected (sig : Sig) (fn : Fn) (i : Nat)
     cases hc
 
 example : accepts ⟨[⟨.ptrA, .val⟩], none⟩ .none ⟨.freeFn, [⟨.int, .val⟩], none⟩ = false := by decide
+
+/-- in particular a scoped enumeration argument does not reach an `int` parameter nor an `int` argument a scoped
+    enumeration parameter (`conv` is *implicit* convertibility), whatever the declared shapes; the same type does -/
+example : conv .enumE .int = false ∧ conv .int .enumE = false ∧ conv .clsXb .bool = false
+    ∧ accepts ⟨[⟨.enumE, .val⟩], none⟩ .none ⟨.freeFn, [⟨.int, .cref⟩], none⟩ = false
+    ∧ accepts ⟨[⟨.int, .val⟩], none⟩ .none ⟨.lambda, [⟨.enumE, .val⟩], none⟩ = false
+    ∧ accepts ⟨[⟨.enumE, .val⟩], none⟩ .none ⟨.lambda, [⟨.enumE, .cref⟩], none⟩ = true := by decide
 
 /-- **non-const reference from a value or const argument ⇒ rejected**: a `T&` functor parameter facing a signature
     parameter declared `U`, `const U&` (passed as const lvalue) or `U&&` (passed as xvalue). -/
@@ -170,6 +199,85 @@ theorem retOk_false_cases (fr sr : Ret) :
 example : accepts ⟨[⟨.int, .val⟩], some ⟨.ptrB, .val⟩⟩ .none ⟨.lambda, [⟨.int, .val⟩], some ⟨.ptrA, .val⟩⟩ = false := by
   decide
 example : accepts ⟨[⟨.int, .val⟩], none⟩ .none ⟨.freeFn, [⟨.int, .val⟩], some ⟨.int, .val⟩⟩ = false := by decide
+
+/-! ### results that are only *explicitly* convertible
+
+  `call_it` returns the functor's result with a plain `return`, i.e. by copy-initialisation: a conversion that exists
+  only as a `static_cast` / direct-initialisation (scoped enumeration → arithmetic, `explicit operator bool()`,
+  `explicit operator double()`) does not make the result compatible. -/
+
+/-- **C05.explicit_only_result_rejected** — a functor result whose object type converts to the signature's result
+    type only explicitly (`onlyExplicit`: `static_cast` would do it, copy-initialisation does not) cannot be returned
+    — whatever the declared shapes (value / reference) on either side. -/
+theorem explicit_only_result_rejected (f s : Param) (h : onlyExplicit f.base s.base = true) :
+    retOk (some f) (some s) = false :=
+  retOk_false_cases _ _ (Or.inr (Or.inr ⟨s, f, rfl, rfl, conv_false_of_onlyExplicit h⟩))
+
+/-- non-vacuity: the relation `onlyExplicit` is inhabited exactly where the C++ rules put it — scoped enumeration to
+    every arithmetic type and back, `Xb → bool`, `Xd → double` (but not `Xb → int`: an explicit conversion function is
+    a candidate for its own target type only) — and the same programs with an *implicit* conversion are accepted. -/
+example : onlyExplicit .enumE .int = true ∧ onlyExplicit .enumE .bool = true ∧ onlyExplicit .enumE .double = true
+    ∧ onlyExplicit .long .enumE = true ∧ onlyExplicit .clsXb .bool = true ∧ onlyExplicit .clsXd .double = true
+    ∧ onlyExplicit .clsXb .int = false ∧ onlyExplicit .int .long = false
+    ∧ retOk (some ⟨.enumE, .val⟩) (some ⟨.int, .val⟩) = false
+    ∧ retOk (some ⟨.clsXb, .cref⟩) (some ⟨.bool, .val⟩) = false
+    ∧ retOk (some ⟨.double, .val⟩) (some ⟨.int, .val⟩) = true
+    ∧ retOk (some ⟨.ptrA, .val⟩) (some ⟨.bool, .val⟩) = true := by decide
+
+/-- **C05.explicit_only_type_result_rejected_for_arithmetic** — for **every** arithmetic signature result type
+    (`int`, `long`, `double`, `bool`; declared by value or as any reference) a functor returning a scoped
+    enumeration, a class with `explicit operator bool()` or a class with `explicit operator double()` (by value or
+    by reference) is rejected. -/
+theorem explicit_only_type_result_rejected_for_arithmetic (f s : Param)
+    (hs : s.base.isArith = true) (hf : f.base.isExplicitOnly = true) :
+    retOk (some f) (some s) = false := by
+  apply retOk_false_cases
+  refine Or.inr (Or.inr ⟨s, f, rfl, rfl, ?_⟩)
+  exact conv_false_arith_of_isExplicitOnly hf hs
+
+example : Base.isArith .bool = true ∧ Base.isExplicitOnly .clsXb = true ∧ Base.isExplicitOnly .enumE = true
+    ∧ Base.isExplicitOnly .int = false := by decide
+
+/-- … and so is the connection, on **every route** (`slot<Sig> s = f`, `signal<Sig>::connect`,
+    `signal<Sig>::accumulated<Acc>::connect`, `signal_connect`) and under **every adaptor hop** (`hide`, `bind`,
+    `retype` — `retype` casts the *arguments*, never the result). -/
+theorem explicit_only_result_connection_rejected (r : Route) (sig : Sig) (ad : Adaptor) (fn : Fn) (f s : Param)
+    (hfr : fn.ret = some f) (hsr : sig.ret = some s)
+    (h : onlyExplicit f.base s.base = true ∨ (s.base.isArith = true ∧ f.base.isExplicitOnly = true)) :
+    acceptsRoute r sig ad fn = false := by
+  cases hacc : acceptsRoute r sig ad fn
+  · rfl
+  · have hr := acceptsRoute_retOk r sig ad fn hacc
+    rw [hfr, hsr] at hr
+    rcases h with h | ⟨h1, h2⟩
+    · rw [explicit_only_result_rejected f s h] at hr
+      cases hr
+    · rw [explicit_only_type_result_rejected_for_arithmetic f s h1 h2] at hr
+      cases hr
+
+/-- non-vacuity, one per route / wrapper: `Level f()` into `slot<int()>`, `signal<bool()>::connect`,
+    `signal<int()>::accumulated<Acc>::connect`, through `bind` and `hide`, a const method returning the enumeration
+    into `signal<long()>`; and the positive controls: the same type is accepted, an arithmetic result is accepted. -/
+example :
+    acceptsRoute .slotInit ⟨[], some ⟨.int, .val⟩⟩ .none ⟨.ptrFun, [], some ⟨.enumE, .val⟩⟩ = false
+    ∧ acceptsRoute .connect ⟨[], some ⟨.bool, .val⟩⟩ .none ⟨.freeFn, [], some ⟨.clsXb, .val⟩⟩ = false
+    ∧ acceptsRoute .connectAccum ⟨[], some ⟨.int, .val⟩⟩ .none ⟨.freeFn, [], some ⟨.enumE, .val⟩⟩ = false
+    ∧ acceptsRoute .slotInit ⟨[], some ⟨.double, .val⟩⟩ (.bind none [.int])
+        ⟨.memFun false .none, [⟨.int, .val⟩], some ⟨.clsXd, .val⟩⟩ = false
+    ∧ acceptsRoute .connect ⟨[⟨.int, .val⟩], some ⟨.long, .val⟩⟩ (.hide none)
+        ⟨.memFun false .const, [], some ⟨.enumE, .val⟩⟩ = false
+    ∧ acceptsRoute .slotInit ⟨[], some ⟨.enumE, .val⟩⟩ .none ⟨.ptrFun, [], some ⟨.enumE, .val⟩⟩ = true
+    ∧ acceptsRoute .connectAccum ⟨[], some ⟨.clsXb, .val⟩⟩ .none ⟨.freeFn, [], some ⟨.clsXb, .cref⟩⟩ = true
+    ∧ acceptsRoute .slotInit ⟨[], some ⟨.double, .val⟩⟩ (.bind none [.int])
+        ⟨.memFun false .none, [⟨.int, .val⟩], some ⟨.long, .val⟩⟩ = true
+    ∧ acceptsRoute .connectAccum ⟨[], some ⟨.int, .val⟩⟩ .none ⟨.freeFn, [], some ⟨.double, .val⟩⟩ = true := by
+  decide
+
+/-- the same type is always returnable: the explicit-only types are not banned, only their conversions are -/
+theorem same_result_type_returnable (r : Ret) : retOk r r = true := retOk_self r
+
+example : retOk (some ⟨.enumE, .val⟩) (some ⟨.enumE, .val⟩) = true
+    ∧ retOk (some ⟨.clsXb, .lref⟩) (some ⟨.clsXb, .val⟩) = true := by decide
 
 /-- **callable with standard implicit conversions ⇒ accepted**: equal arity; every functor parameter is taken by
     value or by const reference and the signature's object type converts to it (however the signature declares its
@@ -360,6 +468,17 @@ theorem accepts_retype_iff (sig : Sig) (fn : Fn) (hw : fn.kind.wrapped = true) :
 example : accepts ⟨[⟨.clsA, .lref⟩], none⟩ .retype ⟨.ptrFun, [⟨.clsB, .lref⟩], none⟩ = true
     ∧ accepts ⟨[⟨.clsA, .val⟩], none⟩ .retype ⟨.ptrFun, [⟨.clsB, .lref⟩], none⟩ = false
     ∧ accepts ⟨[⟨.clsA, .lref⟩], none⟩ .none ⟨.ptrFun, [⟨.clsB, .lref⟩], none⟩ = false := by decide
+
+/-- `retype` is the one place where an explicit-only conversion is *meant* to be performed (`static_cast<P>` on each
+    argument): a scoped-enumeration signature parameter reaches an `int` parameter through it and not without it; the
+    result is not cast, so an explicit-only result stays rejected under `retype`. -/
+example : accepts ⟨[⟨.enumE, .val⟩], none⟩ .retype ⟨.ptrFun, [⟨.int, .val⟩], none⟩ = true
+    ∧ accepts ⟨[⟨.enumE, .val⟩], none⟩ .none ⟨.ptrFun, [⟨.int, .val⟩], none⟩ = false
+    ∧ accepts ⟨[⟨.enumE, .val⟩], none⟩ .retype ⟨.ptrFun, [⟨.int, .cref⟩], none⟩ = false
+    ∧ accepts ⟨[⟨.clsXb, .val⟩], none⟩ .retype ⟨.ptrFun, [⟨.bool, .val⟩], none⟩ = true
+    ∧ accepts ⟨[⟨.clsXb, .val⟩], none⟩ .retype ⟨.ptrFun, [⟨.int, .val⟩], none⟩ = false
+    ∧ accepts ⟨[⟨.int, .val⟩], some ⟨.int, .val⟩⟩ .retype ⟨.ptrFun, [⟨.enumE, .val⟩], some ⟨.enumE, .val⟩⟩ = false := by
+  decide
 
 /-! ## The erased call (anchor "function_pointer_cast erases and restores the exact call_it signature") -/
 
